@@ -379,70 +379,83 @@ func ruleLITINT(c *Ctx) []Obligation {
 	})
 	// printer: every return expression
 	n := 0
-	defs := collectDefs(info, ifd.Body)
-	ast.Inspect(ifd.Body, func(nd ast.Node) bool {
-		r, ok := nd.(*ast.ReturnStmt)
-		if !ok || len(r.Results) != 1 {
-			return true
-		}
-		e := unparen(r.Results[0])
-		n++
-		o := Obligation{Key: fmt.Sprintf("constant.(*Int).Ident spelling #%d: %s", n, exprString(e)), Pos: c.pos(r.Pos()), Verdict: OK}
-		if s, ok := strOf(e); ok {
-			if keywords[s] {
-				o.Detail = fmt.Sprintf("keyword %q is a case of the reader", s)
-			} else {
-				o.Verdict, o.Detail = VIOL, fmt.Sprintf("the printer emits the keyword %q, which the reader does not recognise (it would be parsed as a number and fail)", s)
+	var spellings func(ifd *ast.FuncDecl, depth int)
+	spellings = func(ifd *ast.FuncDecl, depth int) {
+		defs := collectDefs(info, ifd.Body)
+		ast.Inspect(ifd.Body, func(nd ast.Node) bool {
+			r, ok := nd.(*ast.ReturnStmt)
+			if !ok || len(r.Results) != 1 {
+				return true
 			}
-		} else if pfx, okp, verbBase, parts := spellingParts(info, defs, e); parts != nil {
-			var base int64 = verbBase
-			narrowed := ""
-			for _, part := range parts {
-				ast.Inspect(part, func(m ast.Node) bool {
-					call, ok := m.(*ast.CallExpr)
-					if !ok {
+			e := unparen(r.Results[0])
+			// a spelling produced by a helper of the package (boolIdent(c.X)): its returns are the spellings
+			if call, ok := e.(*ast.CallExpr); ok && depth < 2 {
+				if f := calleeOf(info, call); f != nil && f.Pkg() != nil && f.Pkg().Path() == pkgCONS {
+					if hfd := c.funcDecl(f); hfd != nil && hfd.Body != nil && hfd != ifd {
+						spellings(hfd, depth+1)
 						return true
 					}
-					se, ok := unparen(call.Fun).(*ast.SelectorExpr)
-					if !ok {
-						return true
-					}
-					if se.Sel.Name == "Text" && len(call.Args) == 1 {
-						if tv := info.Types[call.Args[0]]; tv.Value != nil {
-							base, _ = constant.Int64Val(constant.ToInt(tv.Value))
+				}
+			}
+			n++
+			o := Obligation{Key: fmt.Sprintf("constant.(*Int).Ident spelling #%d: %s", n, exprString(e)), Pos: c.pos(r.Pos()), Verdict: OK}
+			if s, ok := strOf(e); ok {
+				if keywords[s] {
+					o.Detail = fmt.Sprintf("keyword %q is a case of the reader", s)
+				} else {
+					o.Verdict, o.Detail = VIOL, fmt.Sprintf("the printer emits the keyword %q, which the reader does not recognise (it would be parsed as a number and fail)", s)
+				}
+			} else if pfx, okp, verbBase, parts := spellingParts(info, defs, e); parts != nil {
+				var base int64 = verbBase
+				narrowed := ""
+				for _, part := range parts {
+					ast.Inspect(part, func(m ast.Node) bool {
+						call, ok := m.(*ast.CallExpr)
+						if !ok {
+							return true
 						}
-					}
-					if (se.Sel.Name == "Int64" || se.Sel.Name == "Uint64") && len(call.Args) == 0 && isNamed(info.TypeOf(se.X), "math/big", "Int") {
-						narrowed = exprString(call)
-					}
-					return true
-				})
-			}
-			rb, has := prefixBase[pfx]
-			switch {
-			case narrowed != "":
-				o.Verdict, o.Detail = VIOL, fmt.Sprintf("the spelling is produced from %s: the arbitrary-precision value is narrowed to 64 bits before it is written, so a constant wider than 64 bits loses its upper bits", narrowed)
-			case !okp || base < 0:
-				o.Verdict, o.Detail = UNDECIDED, "unrecognised spelling expression"
-			case !has:
-				o.Verdict, o.Detail = VIOL, fmt.Sprintf("the printer emits the prefix %q, for which the reader has no branch", pfx)
-			case rb != base:
-				o.Verdict, o.Detail = VIOL, fmt.Sprintf("the printer writes digits in base %d after %q, the reader parses them in base %d", base, pfx, rb)
-			default:
-				o.Detail = fmt.Sprintf("prefix %q, base %d on both sides", pfx, base)
-			}
-		} else if call, ok := e.(*ast.CallExpr); ok && strings.HasSuffix(exprString(call.Fun), ".String") {
-			if fallBase == 10 {
-				o.Detail = "decimal on both sides"
+						se, ok := unparen(call.Fun).(*ast.SelectorExpr)
+						if !ok {
+							return true
+						}
+						if se.Sel.Name == "Text" && len(call.Args) == 1 {
+							if tv := info.Types[call.Args[0]]; tv.Value != nil {
+								base, _ = constant.Int64Val(constant.ToInt(tv.Value))
+							}
+						}
+						if (se.Sel.Name == "Int64" || se.Sel.Name == "Uint64") && len(call.Args) == 0 && isNamed(info.TypeOf(se.X), "math/big", "Int") {
+							narrowed = exprString(call)
+						}
+						return true
+					})
+				}
+				rb, has := prefixBase[pfx]
+				switch {
+				case narrowed != "":
+					o.Verdict, o.Detail = VIOL, fmt.Sprintf("the spelling is produced from %s: the arbitrary-precision value is narrowed to 64 bits before it is written, so a constant wider than 64 bits loses its upper bits", narrowed)
+				case !okp || base < 0:
+					o.Verdict, o.Detail = UNDECIDED, "unrecognised spelling expression"
+				case !has:
+					o.Verdict, o.Detail = VIOL, fmt.Sprintf("the printer emits the prefix %q, for which the reader has no branch", pfx)
+				case rb != base:
+					o.Verdict, o.Detail = VIOL, fmt.Sprintf("the printer writes digits in base %d after %q, the reader parses them in base %d", base, pfx, rb)
+				default:
+					o.Detail = fmt.Sprintf("prefix %q, base %d on both sides", pfx, base)
+				}
+			} else if call, ok := e.(*ast.CallExpr); ok && strings.HasSuffix(exprString(call.Fun), ".String") {
+				if fallBase == 10 {
+					o.Detail = "decimal on both sides"
+				} else {
+					o.Verdict, o.Detail = VIOL, fmt.Sprintf("the printer's plain form is decimal, the reader's fallthrough parses base %d", fallBase)
+				}
 			} else {
-				o.Verdict, o.Detail = VIOL, fmt.Sprintf("the printer's plain form is decimal, the reader's fallthrough parses base %d", fallBase)
+				o.Verdict, o.Detail = UNDECIDED, "unrecognised spelling expression"
 			}
-		} else {
-			o.Verdict, o.Detail = UNDECIDED, "unrecognised spelling expression"
-		}
-		obs = append(obs, o)
-		return true
-	})
+			obs = append(obs, o)
+			return true
+		})
+	}
+	spellings(ifd, 0)
 	return obs
 }
 
